@@ -28,7 +28,16 @@ ENTRIES = {}
 def canon(v, depth=0):
     """canonical, content-based form of a parameter / attribute value"""
     if isinstance(v, BaseEstimator) and depth < 4:
-        return ("est", type(v).__name__, canon(v.get_params(deep=False), depth + 1))
+        # an estimator handed over as a constructor parameter is the caller's model: its fitted attributes
+        # (names; values where they are plain data) belong to its content - a query must not fit it
+        # (a wrapped query strategy is exempt: calling its query - which is what a wrapper is for - sets its
+        #  trailing-underscore attributes like any call by the user would)
+        fitted = {}
+        for k, x in sorted(vars(v).items()):
+            if k.endswith("_") and not k.startswith("_") and not hasattr(v, "query"):
+                fitted[k] = canon(x, depth + 1) if isinstance(x, (int, float, str, bool, np.ndarray, list, tuple,
+                                                                  type(None), np.generic)) else type(x).__name__
+        return ("est", type(v).__name__, canon(v.get_params(deep=False), depth + 1), fitted)
     if isinstance(v, dict):
         return {repr(k): canon(x, depth + 1) for k, x in v.items()}
     if isinstance(v, (list, tuple)):
